@@ -23,7 +23,74 @@ impl Client {
         Client { _private: () }
     }
     pub fn post<U: AsRef<str>>(&self, url: U) -> RequestBuilder {
-        RequestBuilder { method: "POST", url: url.as_ref().to_string(), body: None, auth: None }
+        RequestBuilder { method: "POST", url: url.as_ref().to_string(), body: None, auth: None, headers: Vec::new() }
+    }
+    pub fn get<U: AsRef<str>>(&self, url: U) -> RequestBuilder {
+        RequestBuilder { method: "GET", url: url.as_ref().to_string(), body: None, auth: None, headers: Vec::new() }
+    }
+    #[must_use]
+    pub fn builder() -> ClientBuilder {
+        ClientBuilder { _private: () }
+    }
+}
+
+#[derive(Debug, Default)]
+pub struct ClientBuilder {
+    _private: (),
+}
+impl ClientBuilder {
+    #[must_use]
+    pub fn timeout(self, _t: std::time::Duration) -> Self {
+        self
+    }
+    pub fn build(self) -> Result<Client, Error> {
+        Ok(Client::new())
+    }
+}
+
+/// Subset of http::StatusCode.
+#[derive(Clone, Copy, PartialEq, Eq, PartialOrd, Ord, Hash, Debug)]
+pub struct StatusCode(u16);
+impl StatusCode {
+    pub const OK: StatusCode = StatusCode(200);
+    pub const CREATED: StatusCode = StatusCode(201);
+    pub const NO_CONTENT: StatusCode = StatusCode(204);
+    pub const UNAUTHORIZED: StatusCode = StatusCode(401);
+    pub const INTERNAL_SERVER_ERROR: StatusCode = StatusCode(500);
+    pub const SERVICE_UNAVAILABLE: StatusCode = StatusCode(503);
+    #[must_use]
+    pub fn as_u16(&self) -> u16 {
+        self.0
+    }
+    #[must_use]
+    pub fn is_informational(&self) -> bool {
+        (100..200).contains(&self.0)
+    }
+    #[must_use]
+    pub fn is_success(&self) -> bool {
+        (200..300).contains(&self.0)
+    }
+    #[must_use]
+    pub fn is_redirection(&self) -> bool {
+        (300..400).contains(&self.0)
+    }
+    #[must_use]
+    pub fn is_client_error(&self) -> bool {
+        (400..500).contains(&self.0)
+    }
+    #[must_use]
+    pub fn is_server_error(&self) -> bool {
+        (500..600).contains(&self.0)
+    }
+}
+impl PartialEq<u16> for StatusCode {
+    fn eq(&self, o: &u16) -> bool {
+        self.0 == *o
+    }
+}
+impl fmt::Display for StatusCode {
+    fn fmt(&self, f: &mut fmt::Formatter<'_>) -> fmt::Result {
+        write!(f, "{}", self.0)
     }
 }
 
@@ -33,9 +100,23 @@ pub struct RequestBuilder {
     url: String,
     body: Option<String>,
     auth: Option<(String, Option<String>)>,
+    headers: Vec<(String, String)>,
 }
 
 impl RequestBuilder {
+    #[must_use]
+    pub fn try_clone(&self) -> Option<RequestBuilder> {
+        Some(RequestBuilder { method: self.method, url: self.url.clone(), body: self.body.clone(), auth: self.auth.clone(), headers: self.headers.clone() })
+    }
+    #[must_use]
+    pub fn header<K: fmt::Display, V: fmt::Display>(mut self, k: K, v: V) -> Self {
+        self.headers.push((k.to_string(), v.to_string()));
+        self
+    }
+    #[must_use]
+    pub fn timeout(self, _t: std::time::Duration) -> Self {
+        self
+    }
     #[must_use]
     pub fn body<B: Into<String>>(mut self, body: B) -> Self {
         self.body = Some(body.into());
@@ -60,7 +141,7 @@ impl Future for SendFuture {
     type Output = Result<Response, Error>;
     fn poll(mut self: Pin<&mut Self>, _cx: &mut Context<'_>) -> Poll<Self::Output> {
         if let Some(rb) = self.req.take() {
-            let conn = sim::open_connection(sim::Request { method: rb.method, url: rb.url, body: rb.body.unwrap_or_default(), auth: rb.auth });
+            let conn = sim::open_connection(sim::Request { method: rb.method, url: rb.url, body: rb.body.unwrap_or_default(), auth: rb.auth, headers: rb.headers });
             self.conn = Some(conn);
         }
         let conn = self.conn.expect("connection");
@@ -80,8 +161,12 @@ pub struct Response {
 
 impl Response {
     #[must_use]
-    pub fn status(&self) -> u16 {
-        self.status
+    pub fn status(&self) -> StatusCode {
+        StatusCode(self.status)
+    }
+    pub fn bytes(self) -> impl Future<Output = Result<Vec<u8>, Error>> {
+        let t = TextFuture { conn: self.conn };
+        async move { t.await.map(String::into_bytes) }
     }
     /// `Err` iff the status is a client or server error (400..=599), like reqwest.
     pub fn error_for_status_ref(&self) -> Result<&Self, Error> {
@@ -137,8 +222,16 @@ impl Error {
         self.kind == Kind::Status
     }
     #[must_use]
-    pub fn status(&self) -> Option<u16> {
-        self.status
+    pub fn status(&self) -> Option<StatusCode> {
+        self.status.map(StatusCode)
+    }
+    #[must_use]
+    pub fn is_connect(&self) -> bool {
+        self.kind == Kind::Request
+    }
+    #[must_use]
+    pub fn is_timeout(&self) -> bool {
+        false
     }
     #[must_use]
     pub fn is_body(&self) -> bool {
